@@ -27,6 +27,11 @@ pub fn validate(uri: &str) -> Result<NonZeroU8, MxcUriError> {
     } else if server_name::validate(server_name).is_err() {
         Err(MxcUriError::ServerNameMalformed)
     } else {
-        Ok(NonZeroU8::new((index + 6) as u8).unwrap())
+        // The index of the slash is returned as a `u8`, a server name that is so long that the
+        // index doesn't fit cannot be valid.
+        u8::try_from(index + 6)
+            .ok()
+            .and_then(NonZeroU8::new)
+            .ok_or(MxcUriError::ServerNameMalformed)
     }
 }
